@@ -287,4 +287,18 @@ def run(ctx, rep):
         isinstance(body[2], ast.Return) and A.src(body[2].value) == body[0].targets[0].id
     rep.ob("R15.6", "timed.__call__: starts the call, sets the expiry on that result, returns it", okt,
            "res = self.proxy(*args, **kwargs); res.set_expiry(self.timeout); return res" if okt else "timed.__call__ changed", ftm.loc)
+    fti = ctx.func("rpyc.utils.helpers.timed.__init__")
+    tp_ = A.params(fti.node)
+    tset = [n for n in A.walk(fti.node) if isinstance(n, ast.Assign) and K.self_attr(n.targets[0], "timeout")]
+    okti = len(tset) == 1 and isinstance(tset[0].value, ast.Name) and tset[0].value.id in tp_
+    rep.ob("R15.6", "timed.__init__: keeps the relative timeout (the deadline starts at each call, not at wrapper creation)", okti,
+           "self.timeout = timeout" if okti else
+           "timed stores `%s`: an absolute deadline fixed at creation makes every later call expire early (or at birth)"
+           % (A.src(tset[0].value) if tset else None), fti.loc)
+    # set_expiry is always given a relative number of seconds, never a Timeout object built earlier
+    for fu_, c_ in ctx.call_sites(".set_expiry"):
+        a0 = c_.args[0] if c_.args else None
+        bad_ = isinstance(a0, ast.Call) and (A.call_name(a0) or "").endswith("Timeout")
+        rep.ob("R15.6", "%s: set_expiry receives seconds, not a pre-built deadline" % (fu_.qual.split(".", 2)[-1] if fu_ else "?"),
+               not bad_, "`%s`" % A.norm(c_)[:60], ctx.loc(c_), kind="site", nontrivial=False)
     K.share(ctx, rep, "c14", lambda o: o.rule == "R14.2", "R15.6", floor=3)
